@@ -48,6 +48,9 @@ def unwrap(data: bytes):
 
 class C14(Check):
     pid = "C14"
+    level_text = (
+        "Bounded exhaustive: all 256 bytes, all short strings, all scaffolds <=3 (4) rows, the C03 row scope x buffers, the C18 lookup scope."
+    )
     technique = (
         "exhaustive scope enumeration on the real reverse / reverse-complement / streaming code: all 256 bytes, all short strings, all "
         "scaffolds <= K rows, the C03 row scope x buffers, the C18 lookup scope"
